@@ -85,7 +85,7 @@ CLAIMS.update({
 CLAIMS.update({
   "C06": dict(
     technique="Lean 4 invariant proofs over an interleaving transition system + CHESS-style bounded schedule enumeration of the real engine with step-sequence refinement check against the model",
-    text="Theorems in SMV/Props/C06.lean: for every reachable state of the put/try-acquire/drain/release protocol with any number of senders, nested sends and any interleaving, at most one sender is in the critical section (callback blocks never overlap), processed ++ in-flight ++ queue = history (exactly once, put order, per-sender order), and when all senders have returned the queue is empty — for the repaired thread protocol and the asyncio-atomic variant; a machine-checked witness shows the un-repaired thread protocol strands an event (D15). The model is tied to the real sync/async engines by controlled schedulers (sys.settrace baton per source line; one-handle-per-iteration event loop) that enumerate schedules under a preemption bound, check an independent Spec on each, and validate each realised step sequence and outcome against the model. PARTIAL for the runtime: source-line granularity, atomic Lock/deque operations assumed, failure path excluded.",
+    text="Theorems in SMV/Props/C06.lean: for every reachable state of the put/try-acquire/drain/release protocol with any number of senders, nested sends and any interleaving, at most one sender is in the critical section (callback blocks never overlap), processed ++ in-flight ++ queue = history (exactly once, put order, per-sender order), and when all senders have returned the queue is empty — for the repaired thread protocol and the asyncio-atomic variant; a machine-checked witness shows the un-repaired thread protocol strands an event (D15). The model is tied to the real sync/async engines by controlled schedulers (sys.settrace baton per source line; one-handle-per-iteration event loop) that enumerate schedules under a preemption bound, check an independent Spec on each, and validate each realised step sequence and outcome against the model. PARTIAL for the runtime: source-line granularity, atomic Lock/deque operations assumed, failure path excluded. The failure path (a failing callback, or a draining asyncio task cancelled inside one: queue cleared, lock released, no re-check) is added on top of the protocol in Lemmas/ProtocolFail: mutual exclusion, non-overlap of callback sequences and at-most-once-in-order hold for every interleaving with failures (C06_*_failures); the check's cancelled-sender probe looks at the real engine.",
     design="7 C06",
     note="Trusted: Lean kernel (axioms propext/Classical.choice/Quot.sound); the protocol model's correspondence to engines/sync.py and async_.py rests on the schedulers' line-to-step mapping (falls back to Spec + outcome-set comparison if the anchors move); bytecode-level preemption inside one source line, GIL hand-off timing and real event-loop timing are not explored; Lock.acquire(blocking=False)/release and deque.append/popleft are assumed atomic."),
   "C12": dict(
